@@ -124,6 +124,33 @@ impl DynOpcode {
     #[verifier::external_body]
     pub fn min_gas_cost(&self) -> (r: usize) ensures r == gas_cost(*self) { unimplemented!() }
 }
+/// A-CALLEE (opaque stand-ins for `dyn Opcode` / `dyn Any` and marker types for the two jump instructions): the downcast chain
+/// `instr.as_any().is::<T>()` (downcast_rs::Downcast::as_any, Any::is) is a pure test of the instruction's concrete type; nothing
+/// else is assumed about it - in particular NOT which errors an instruction of a given type can return.  The loop as it stands
+/// does not use it; it is declared so that an edit that dispatches on the instruction's type reaches the contracts.
+#[verifier::external_body]
+pub struct OpcodeObject { _opaque: u8 }
+#[verifier::external_body]
+pub struct AnyObject { _opaque: u8 }
+pub struct Jump;
+pub struct JumpI;
+pub uninterp spec fn object_of(o: DynOpcode) -> OpcodeObject;
+pub uninterp spec fn any_of(o: OpcodeObject) -> AnyObject;
+pub uninterp spec fn any_is<T>(a: AnyObject) -> bool;
+impl DynOpcode {
+    #[verifier::external_body]
+    pub fn as_ref(&self) -> (r: &OpcodeObject) ensures *r == object_of(*self) { unimplemented!() }
+    #[verifier::external_body]
+    pub fn as_any(&self) -> (r: &AnyObject) ensures *r == any_of(object_of(*self)) { unimplemented!() }
+}
+impl OpcodeObject {
+    #[verifier::external_body]
+    pub fn as_any(&self) -> (r: &AnyObject) ensures *r == any_of(*self) { unimplemented!() }
+}
+impl AnyObject {
+    #[verifier::external_body]
+    pub fn is<T: 'static>(&self) -> (r: bool) ensures r == any_is::<T>(*self) { unimplemented!() }
+}
 //@extract file=src/opcode/mod.rs path="type ExecuteResult" kind=type
 //@end
 
@@ -375,7 +402,8 @@ impl VM {
     pub open spec fn stored(&self) -> Seq<VMState> { self.stored_states@ }
     /// the error log
     pub open spec fn log(&self) -> Seq<LocatedError> { self.errors.log() }
-    pub open spec fn wf(&self) -> bool { forall|i: int| 0 <= i < self.q().len() ==> (#[trigger] self.q()[i]).wf(self.instructions_len) }
+    /// the type invariant of the queue: every thread is a thread of this VM's code (see VMThread::wf)
+    pub open spec fn wf(&self) -> bool { threads_wf(self.q(), self.instructions_len) }
     /// everything but the thread queue, the stored states, the error log and the kill flag
     pub open spec fn same_rest(&self, o: &VM) -> bool {
         &&& self.instructions_len == o.instructions_len
@@ -389,10 +417,43 @@ impl VM {
     pub open spec fn own_polls(&self) -> int { self.watchdog.polls() - self.watchdog.inner_polls() }
     pub open spec fn executed(&self) -> nat { self.watchdog.executed() }
     /// C03: no queued thread has used more gas than the limit (VM::new: one thread that has used none)
-    pub open spec fn gas_within(&self) -> bool { forall|i: int| 0 <= i < self.q().len() ==> (#[trigger] self.q()[i]).gas() <= self.config.gas_limit }
+    pub open spec fn gas_within(&self) -> bool { threads_gas_within(self.q(), self.config.gas_limit, 0) }
+    /// ... the same for the threads waiting behind the current one
+    pub open spec fn gas_within_behind_front(&self) -> bool { threads_gas_within(self.q(), self.config.gas_limit, 1) }
     // A-CALLEE: VM::instructions_len = `self.instructions.len().try_into().unwrap_or_else(|_| panic!(..))`; the stand-in keeps
     // the length itself (an InstructionStream never holds more than u32::MAX instructions: the disassembler refuses)
     fn instructions_len(&self) -> (r: u32) ensures r == self.instructions_len { self.instructions_len }
+}
+
+/// every thread of the queue is well-formed for a code of `len` instructions.  Kept OPAQUE to the solver (the quantifier is costly
+/// in the loop body, where a dozen VM states are alive); what the loop needs of it are the four proved lemmas below.
+#[verifier::opaque]
+pub open spec fn threads_wf(q: Seq<VMThread>, len: u32) -> bool { forall|i: int| 0 <= i < q.len() ==> (#[trigger] q[i]).wf(len) }
+/// every thread of the queue from position `from` on has used no more gas than `limit`
+#[verifier::opaque]
+pub open spec fn threads_gas_within(q: Seq<VMThread>, limit: usize, from: int) -> bool { forall|i: int| from <= i < q.len() ==> (#[trigger] q[i]).gas() <= limit }
+pub broadcast proof fn lemma_threads_wf_front(q: Seq<VMThread>, len: u32)
+    requires #[trigger] threads_wf(q, len), q.len() > 0,
+    ensures q[0].wf(len),
+{ reveal(threads_wf); }
+pub broadcast proof fn lemma_threads_wf_update_front(q: Seq<VMThread>, t: VMThread, len: u32)
+    requires threads_wf(q, len), t.wf(len),
+    ensures #[trigger] threads_wf(q.update(0, t), len),
+{ reveal(threads_wf); }
+pub broadcast proof fn lemma_threads_gas_front(q: Seq<VMThread>, limit: usize)
+    requires #[trigger] threads_gas_within(q, limit, 0), q.len() > 0,
+    ensures q[0].gas() <= limit, threads_gas_within(q, limit, 1),
+{ reveal(threads_gas_within); }
+pub broadcast proof fn lemma_threads_gas_update_front(q: Seq<VMThread>, t: VMThread, limit: usize)
+    requires threads_gas_within(q, limit, 1),
+    ensures #[trigger] threads_gas_within(q.update(0, t), limit, 1),
+{ reveal(threads_gas_within); }
+pub broadcast proof fn lemma_threads_gas_update_front_within(q: Seq<VMThread>, t: VMThread, limit: usize)
+    requires threads_gas_within(q, limit, 1), t.gas() <= limit,
+    ensures #[trigger] threads_gas_within(q.update(0, t), limit, 0),
+{ reveal(threads_gas_within); }
+pub broadcast group group_queue_lemmas {
+    lemma_threads_wf_front, lemma_threads_wf_update_front, lemma_threads_gas_front, lemma_threads_gas_update_front, lemma_threads_gas_update_front_within,
 }
 
 /// the thread `t` after one step: same state, same gas, same code, pointer moved on by exactly one
@@ -461,19 +522,55 @@ pub open spec fn is_fork_of(f: VMThread, t: VMThread) -> bool {
 ///   * the error log only grows (`store_error` appends);
 ///   * the kill flag may be set, never cleared;
 ///   * the current thread stays the front of the queue (`current_after_opcode`); the threads waiting behind it are not touched;
-///     threads may be added at the back, each a fork of the current thread (`is_fork_of`); none is removed.
+///     threads may be added at the back, each a fork of the current thread (`is_fork_of`); none is removed; without a current
+///     thread the queue stays empty.
 /// Not assumed: anything about stack, memory, storage, recorded values, jump-target counters, the builder.
+#[verifier::opaque]
 pub open spec fn opcode_frame(pre: &VM, post: &VM) -> bool {
     &&& post.instructions_len == pre.instructions_len
     &&& post.config == pre.config
     &&& post.stored() == pre.stored()
     &&& pre.log().is_prefix_of(post.log())
     &&& pre.current_thread_killed ==> post.current_thread_killed
+    &&& pre.q().len() == 0 ==> post.q() == pre.q()
     &&& pre.q().len() > 0 ==> {
         &&& post.q().len() >= pre.q().len()
         &&& current_after_opcode(pre.q()[0], post.q()[0])
         &&& forall|i: int| 1 <= i < pre.q().len() ==> #[trigger] post.q()[i] == pre.q()[i]
         &&& forall|i: int| pre.q().len() <= i < post.q().len() ==> is_fork_of(#[trigger] post.q()[i], pre.q()[0])
+    }
+}
+/// what the loop needs of the frame (PROVED from its definition; the definition itself is kept opaque to the solver)
+pub broadcast proof fn lemma_opcode_frame(pre: &VM, post: &VM)
+    requires #[trigger] opcode_frame(pre, post),
+    ensures
+        post.instructions_len == pre.instructions_len, post.config == pre.config, post.stored() == pre.stored(),
+        pre.current_thread_killed ==> post.current_thread_killed,
+        pre.q().len() > 0 ==> post.q().len() >= pre.q().len() && current_after_opcode(pre.q()[0], post.q()[0]),
+        // an opcode keeps the queue well-formed and within the gas limit (forks inherit the current thread's gas)
+        pre.wf() ==> post.wf(),
+        pre.gas_within() ==> post.gas_within(),
+{
+    reveal(opcode_frame);
+    reveal(threads_wf);
+    reveal(threads_gas_within);
+    if pre.wf() {
+        assert forall|i: int| 0 <= i < post.q().len() implies (#[trigger] post.q()[i]).wf(post.instructions_len) by {
+            if pre.q().len() > 0 {
+                if i == 0 { assert(pre.q()[0].wf(pre.instructions_len)); }
+                else if i < pre.q().len() { assert(post.q()[i] == pre.q()[i]); assert(pre.q()[i].wf(pre.instructions_len)); }
+                else { assert(is_fork_of(post.q()[i], pre.q()[0])); assert(pre.q()[0].wf(pre.instructions_len)); }
+            }
+        }
+    }
+    if pre.gas_within() {
+        assert forall|i: int| 0 <= i < post.q().len() implies (#[trigger] post.q()[i]).gas() <= post.config.gas_limit by {
+            if pre.q().len() > 0 {
+                if i == 0 { assert(pre.q()[0].gas() <= pre.config.gas_limit); }
+                else if i < pre.q().len() { assert(post.q()[i] == pre.q()[i]); assert(pre.q()[i].gas() <= pre.config.gas_limit); }
+                else { assert(is_fork_of(post.q()[i], pre.q()[0])); assert(pre.q()[0].gas() <= pre.config.gas_limit); }
+            }
+        }
     }
 }
 /// R-CALL stand-in for `instruction.execute(self)`.  A-CALLEE, three parts:
@@ -560,6 +657,10 @@ pub open spec fn nothing_else_before_opcode(pre: &VM, b: &VM) -> bool {
 pub open spec fn gas_after(a: &VM, res: ExecuteResult, op: DynOpcode) -> int { a.q()[0].gas() + (if res is Ok { gas_cost(op) as int } else { 0 }) }
 /// C17: the error an opcode returns is tolerated - not recorded - exactly in permissive mode for the four jump-target kinds
 pub open spec fn tolerated(a: &VM, res: ExecuteResult) -> bool { a.config.permissive_errors && is_jump_target_kind(res->Err_0.payload) }
+/// C17: the error log once the opcode's result is dealt with: an error is appended, unless it is tolerated; Ok records nothing
+pub open spec fn log_after_opcode_result(a: &VM, res: ExecuteResult) -> Seq<LocatedError> {
+    if res is Err && !tolerated(a, res) { a.log().push(res->Err_0) } else { a.log() }
+}
 /// C03/C08: the current thread ends in this iteration iff ...
 pub open spec fn ends_now(a: &VM, res: ExecuteResult, op: DynOpcode) -> bool {
     ||| res is Err                                  // the opcode failed (in EVERY mode, tolerated or not: a failed jump never falls through)
@@ -610,6 +711,8 @@ match self.current_thread() { Ok($1) => Ok($2), Err(e) => Err(e) }
         ensures
             self.q().len() > 0 ==> r == Ok::<DynOpcode, LocatedError>(self.q()[0].code()[self.q()[0].ip() as int]),      //@ob C08.loop.current_instruction.is_the_one_at_the_current_pointer
             self.q().len() == 0 ==> r is Err,
+//@proof entry
+        broadcast use group_queue_lemmas;
 //@end
 //@extract file=src/vm/mod.rs path="impl VM|fn kill_current_thread"
 //@spec
@@ -677,31 +780,39 @@ match Err(Error::StoppedByWatchdog).locate($1) { Ok(()) => (), Err(e) => return 
                 old(self).stored().is_prefix_of(self.stored()),                                                          //@ob C06.loop.execute.loop.stored_states_are_never_dropped
                 self.stored().len() + self.q().len() >= old(self).stored().len() + old(self).q().len(),                  //@ob C06.loop.execute.loop.every_thread_is_queued_or_stored
                 // ONE ITERATION (prev = the VM at the head of the iteration that just ended; the run history names the rest)
+                counter > 0 ==> prev.q().len() > 0 && self.watchdog.before_op().q().len() > 0 && self.watchdog.after_op().q().len() > 0,
                 counter > 0 ==> self.executed() == prev.executed() + 1,
                 counter > 0 ==> prev.q().len() > 0 && self.watchdog.last_op() == prev.q()[0].code()[prev.q()[0].ip() as int],      //@ob C08.loop.execute.iter.executes_the_current_instruction
                 counter > 0 ==> marks_current_instruction(&prev, &self.watchdog.before_op()),                           //@ob C03.loop.execute.iter.marks_the_instruction_visited_before_executing_it
                 counter > 0 ==> nothing_else_before_opcode(&prev, &self.watchdog.before_op()),                          //@ob C03.loop.execute.iter.nothing_else_happens_before_the_opcode
                 counter > 0 ==> self.watchdog.before_op().polls() == prev.polls() + (if (counter as int - 1) % (poll_interval as int) == 0 { 1nat } else { 0nat }),      //@ob C13.loop.execute.iter.polls_iff_counter_is_a_multiple_of_the_interval
-                // the thread ends iff ...; it is retired with its state stored (C06), else goes on having consumed the opcode's gas on Ok
-                counter > 0 && ends_now(&self.watchdog.after_op(), self.watchdog.op_result(), self.watchdog.last_op())
-                    ==> retired(&self.watchdog.after_op(), self),                                                        //@ob C08.loop.execute.iter.failed_or_halted_or_limited_thread_ends C03.loop.execute.iter.thread_ends_at_its_limits C06.loop.execute.iter.ended_thread_state_is_stored
+                // C08 / C03: the current thread ENDS - is retired, its state stored - for each of these reasons ...
+                counter > 0 && self.watchdog.op_result() is Err ==> retired(&self.watchdog.after_op(), self),                 //@ob C08.loop.execute.iter.failed_opcode_ends_the_thread_in_every_mode
+                counter > 0 && self.watchdog.after_op().current_thread_killed ==> retired(&self.watchdog.after_op(), self),    //@ob C08.loop.execute.iter.halting_opcode_ends_the_path
+                counter > 0 && (next_is_outside_code(&self.watchdog.after_op()) || next_is_at_visit_limit(&self.watchdog.after_op()))
+                    ==> retired(&self.watchdog.after_op(), self),                                                            //@ob C03.loop.execute.iter.thread_ends_at_the_end_of_the_code_or_the_visit_limit
+                counter > 0 && gas_after(&self.watchdog.after_op(), self.watchdog.op_result(), self.watchdog.last_op()) > self.config.gas_limit
+                    ==> retired(&self.watchdog.after_op(), self),                                                            //@ob C03.loop.execute.iter.thread_ends_when_out_of_gas_in_both_modes
+                // ... and for no other: otherwise it goes on by exactly one instruction, having consumed the opcode's minimum gas
                 counter > 0 && !ends_now(&self.watchdog.after_op(), self.watchdog.op_result(), self.watchdog.last_op())
                     ==> goes_on_with_gas(&self.watchdog.after_op(), gas_after(&self.watchdog.after_op(), self.watchdog.op_result(), self.watchdog.last_op()), self),      //@ob C03.loop.execute.iter.otherwise_goes_on_and_ok_consumes_min_gas
-                // C17: what is recorded
-                counter > 0 && self.watchdog.op_result() is Err && !tolerated(&self.watchdog.after_op(), self.watchdog.op_result())
-                    ==> self.log() == self.watchdog.after_op().log().push(self.watchdog.op_result()->Err_0),             //@ob C17.loop.execute.iter.error_is_recorded_unless_tolerated
-                counter > 0 && self.watchdog.op_result() is Err && tolerated(&self.watchdog.after_op(), self.watchdog.op_result())
-                    ==> self.log() == self.watchdog.after_op().log(),                                                    //@ob C17.loop.execute.iter.tolerated_jump_error_is_not_recorded
-                counter > 0 && self.watchdog.op_result() is Ok && gas_after(&self.watchdog.after_op(), self.watchdog.op_result(), self.watchdog.last_op()) <= self.config.gas_limit
-                    ==> self.log() == self.watchdog.after_op().log(),                                                    //@ob C17.loop.execute.iter.ok_records_nothing
-                counter > 0 && self.watchdog.op_result() is Ok && gas_after(&self.watchdog.after_op(), self.watchdog.op_result(), self.watchdog.last_op()) > self.config.gas_limit
-                    ==> self.log().to_multiset() == self.watchdog.after_op().log().to_multiset().insert(Located { location: self.watchdog.after_op().q()[0].ip(), payload: Error::GasLimitExceeded }),      //@ob C17.loop.execute.iter.gas_exhaustion_is_recorded_in_both_modes
+                // C06: whichever it is, no state is lost
+                counter > 0 ==> retired(&self.watchdog.after_op(), self)
+                    || goes_on_with_gas(&self.watchdog.after_op(), gas_after(&self.watchdog.after_op(), self.watchdog.op_result(), self.watchdog.last_op()), self),      //@ob C06.loop.execute.iter.ended_thread_state_is_stored_or_thread_goes_on
+                // C17: what is recorded - the opcode's error unless tolerated, and gas exhaustion in both modes; nothing else
+                counter > 0 && gas_after(&self.watchdog.after_op(), self.watchdog.op_result(), self.watchdog.last_op()) <= self.config.gas_limit
+                    ==> self.log() == log_after_opcode_result(&self.watchdog.after_op(), self.watchdog.op_result()),      //@ob C17.loop.execute.iter.opcode_error_is_recorded_unless_tolerated
+                counter > 0 && gas_after(&self.watchdog.after_op(), self.watchdog.op_result(), self.watchdog.last_op()) > self.config.gas_limit
+                    ==> self.log().to_multiset() == log_after_opcode_result(&self.watchdog.after_op(), self.watchdog.op_result()).to_multiset()
+                        .insert(Located { location: self.watchdog.after_op().q()[0].ip(), payload: Error::GasLimitExceeded }),      //@ob C17.loop.execute.iter.gas_exhaustion_is_recorded_in_both_modes
             ensures
                 self.q().len() == 0,      // the loop is left only when no thread is left
 //@proof entry
+        broadcast use lemma_opcode_frame, group_queue_lemmas;
         let ghost mut prev: VM = *self;
         proof { lemma_polls_due_zero(self.watchdog.interval() as nat); }
 //@proof loopstart #1
+            broadcast use lemma_opcode_frame, group_queue_lemmas;
             proof {
                 prev = *self;
                 lemma_polls_due_step(counter as nat, poll_interval as nat);
@@ -731,10 +842,14 @@ match Err(Error::StoppedByWatchdog).locate($1) { Ok(()) => (), Err(e) => return 
             old(self).q().len() > 0 && gas_exceeded(old(self)) ==> final(self).log().to_multiset()
                 == old(self).log().to_multiset().insert(Located { location: old(self).q()[0].ip(), payload: Error::GasLimitExceeded }),      //@ob C17.loop.advance.gas_exhaustion_recorded_in_both_modes
             old(self).q().len() > 0 && !gas_exceeded(old(self)) ==> final(self).log() == old(self).log(),             //@ob C17.loop.advance.no_other_error_recorded
+            // C03: no thread continues once the gas it has consumed exceeds the limit
+            old(self).gas_within_behind_front() ==> final(self).gas_within(),                                           //@ob C03.loop.advance.no_thread_continues_beyond_the_gas_limit
             // the kill flag is consumed
             old(self).q().len() > 0 ==> !final(self).current_thread_killed,                                            //@ob C08.loop.advance.kill_flag_reset
             final(self).same_rest(old(self)),
             final(self).wf(),
+//@proof entry
+        proof { reveal(threads_wf); reveal(threads_gas_within); }
 //@end
 }
 } // verus!
